@@ -10,7 +10,8 @@ open Lean D2V.Drv
 
 namespace D2V.Text
 
-def cfgFromSource : Cfg := ⟨D2V.Gen.ParserSites.patReset, D2V.Gen.ParserSites.arrayEndPos⟩
+def cfgFromSource : Cfg :=
+  ⟨D2V.Gen.ParserSites.patReset, D2V.Gen.ParserSites.arrayEndPos, D2V.Gen.ParserSites.valueSubstGuard⟩
 
 def rangeStr (r : Range) : String := showRange r
 
@@ -235,5 +236,14 @@ def specTotal (c : Case) : Option (String × String) :=
   else match c.out.getObjVal? "tree", c.out.getObjVal? "errs" with
     | .ok (.bool true), .ok (.arr _) => none
     | _, _ => some ("no-tree", s!"no tree / error list returned ep={c.ep} src={srcHex}")
+
+def oneLine (s : String) : String := s.map fun c => if c = '\n' || c = '\r' then ' ' else c
+
+/-- a verdict must stay on one line -/
+def sanitize : Verdict → Verdict
+  | .mismatch sig d => .mismatch (oneLine sig) (oneLine d)
+  | .specfalse sig d => .specfalse (oneLine sig) (oneLine d)
+  | .bad w => .bad (oneLine w)
+  | v => v
 
 end D2V.Text
